@@ -13,6 +13,7 @@ Import ListNotations.
 
 (** default values: 2 p log n (PELT), 2 p sqrt(log n) (seeded binary segmentation),
     2 p log (n * max_interval_length) (circular binary segmentation) *)
+From SK Require Import Proofs.IntermediatePenalty.
 Theorem C15_pelt_default : forall n p, pelt_default_penalty_R n p = (2 * INR p * ln (INR n))%R.
 Proof. exact pelt_penalty_formula. Qed.
 Theorem C15_sbs_default : forall n p, sbs_default_threshold_R n p = (2 * INR p * sqrt (ln (INR n)))%R.
@@ -117,3 +118,17 @@ Print Assumptions C15_quantile_between.
 Print Assumptions C15_exceedance_bound.
 Print Assumptions C15_exceed_fraction_refuted.
 Print Assumptions C15_pelt_penalty_monotone.
+
+(** ---- added: statements re-derived from the lemma files by tools/append_props.py ---- *)
+Theorem C15_intermediate_curve_formula : forall (n p npv : nat) (scale : R) (j : nat) (c f : R), intermediate_penalty_curve_R n p npv scale j c f = inter_doc n p npv scale j c f.
+Proof. exact @intermediate_curve_formula. Qed.
+
+Theorem C15_intermediate_curve_proportional : forall (n p npv : nat) (scale : R) (j : nat) (c f : R), intermediate_penalty_curve_R n p npv scale j c f = scale * intermediate_penalty_curve_R n p npv 1 j c f.
+Proof. exact @intermediate_curve_scale. Qed.
+
+Theorem C15_intermediate_curve_nonneg : forall (n p npv : nat) (scale : R) (j : nat) (c f : R), (1 <= n)%nat -> (1 <= p)%nat -> 0 <= scale -> 0 <= c -> 0 <= f -> 0 <= intermediate_penalty_curve_R n p npv scale j c f.
+Proof. exact @intermediate_curve_nonneg. Qed.
+
+Print Assumptions C15_intermediate_curve_formula.
+Print Assumptions C15_intermediate_curve_proportional.
+Print Assumptions C15_intermediate_curve_nonneg.
